@@ -112,6 +112,9 @@ def read_basic_types(ctx):
 # member type T:
 #   {'k':'basic','n'}  {'k':'ptr','to': 'void'|'utf8'|'filename'|'basic:<n>'|'type:<name>'|'glist'}
 #   {'k':'array','n':int,'of':T}  {'k':'iface','name'}  {'k':'cb'}  {'k':'bits','n','bits'}
+#       array option 'ct': how the <array> element spells its c:type — absent/'elem' = the element's C name
+#       (no `*`), 'none' = no c:type at all (what g-ir-scanner writes for an array FIELD), 'ptr' = the
+#       decayed pointer type ending in `*` (`gchar**`; other producers, and the scanner for parameters)
 #   {'k':'lenarray','of':basic name}       unsized <array> with pointer c:type  (a pointer)
 #   {'k':'flex','of':basic name}           unsized <array>, no c:type  (`T f[];`): not a pointer, unknown size
 #   {'k':'strv'}                           unsized <array c:type="gchar**"> without length  (a pointer)
@@ -155,8 +158,9 @@ def gir_type(b, t):
             return '<type name="%s" c:type="%s*"/>' % (n, n)
         return '<type name="%s" c:type="%s*"/>' % (n, b.cname(n))
     if k == 'array':
-        return '<array zero-terminated="0" fixed-size="%d" c:type="%s">%s</array>' % (t['n'], esc(c_elem_name(b, t)),
-                                                                                       gir_type(b, t['of']))
+        ct = t.get('ct', 'elem')
+        attr = '' if ct == 'none' else ' c:type="%s"' % esc(c_elem_name(b, t) + ('*' if ct == 'ptr' else ''))
+        return '<array zero-terminated="0" fixed-size="%d"%s>%s</array>' % (t['n'], attr, gir_type(b, t['of']))
     if k in ('iface', 'self'):
         return '<type name="%s" c:type="%s"/>' % (t['name'], b.cname(t['name']))
     if k == 'lenarray':
@@ -180,6 +184,8 @@ def c_elem_name(b, t):
         return t['n']
     if t['k'] in ('iface', 'self'):
         return b.cname(t['name'])
+    if t['k'] == 'ptr' and t['to'] in ('utf8', 'filename'):
+        return 'gchar*'
     return 'gpointer'
 
 
@@ -283,7 +289,9 @@ def model_type(b, basic, t):
         return model_named(b, basic, n, True)
     # C array typed fields: the attributes start_type looks at (Model.fieldArrayTy decides is_pointer)
     if k == 'array':
-        return {'k': 'fieldarray', 'has_size': True, 'size': t['n'], 'has_length': False, 'ctype_ptr': False,
+        ct = t.get('ct', 'elem')
+        ctype_ptr = ct == 'ptr' or (ct == 'elem' and c_elem_name(b, t).endswith('*'))
+        return {'k': 'fieldarray', 'has_size': True, 'size': t['n'], 'has_length': False, 'ctype_ptr': ctype_ptr,
                 'elem': model_type(b, basic, t['of'])}
     if k in ('lenarray', 'flex'):
         return {'k': 'fieldarray', 'has_size': False, 'size': -1, 'has_length': k == 'lenarray', 'ctype_ptr': k == 'lenarray',
@@ -633,6 +641,9 @@ class Gen(object):
             if rng.random() < self.weights.get('bigarray', 0.012):
                 n = rng.choice([65535, 65536, 70000, 131072])
             t = {'k': 'array', 'n': n, 'of': el}
+            r2 = rng.random()
+            if r2 < 0.25:
+                t['ct'] = 'none' if r2 < 0.15 else 'ptr'
             if rng.random() < 0.08:
                 t = {'k': 'array', 'n': rng.randint(1, 3), 'of': t}
             return t
@@ -747,6 +758,21 @@ GRID_KINDS = (
      ('array3-ptr-type', _arr(3, {'k': 'ptr', 'to': 'type:P3'}), False),
      ('array2-callback-typedef', _arr(2, _iv('Cb')), True), ('array1-callback-typedef', _arr(1, _iv('Cb')), False),
      ('array3-alias', _arr(3, _b('Al')), False), ('array2-alias-struct', _arr(2, _iv('AlS')), False),
+     # the same with the c:type spellings of the <array> element that decide is_pointer in start_type
+     ('array0-ptr-utf8-ctype*', dict(_arr(0, {'k': 'ptr', 'to': 'utf8'}), ct='ptr'), True),
+     ('array1-ptr-utf8-ctype*', dict(_arr(1, {'k': 'ptr', 'to': 'utf8'}), ct='ptr'), True),
+     ('array3-ptr-utf8-ctype*', dict(_arr(3, {'k': 'ptr', 'to': 'utf8'}), ct='ptr'), True),
+     ('array0-ptr-void-ctype*', dict(_arr(0, {'k': 'ptr', 'to': 'void'}), ct='ptr'), False),
+     ('array2-ptr-type-ctype*', dict(_arr(2, {'k': 'ptr', 'to': 'type:P3'}), ct='ptr'), False),
+     ('array0-gint8-ctype*', dict(_arr(0, _b('gint8')), ct='ptr'), True),
+     ('array1-gint16-ctype*', dict(_arr(1, _b('gint16')), ct='ptr'), False),
+     ('array3-struct-3/1-ctype*', dict(_arr(3, _iv('P3')), ct='ptr'), False),
+     ('array0-struct-16/8-ctype*', dict(_arr(0, _iv('P16')), ct='ptr'), False),
+     ('array0-gint64-noctype', dict(_arr(0, _b('gint64')), ct='none'), True),
+     ('array1-gint8-noctype', dict(_arr(1, _b('gint8')), ct='none'), False),
+     ('array3-gint16-noctype', dict(_arr(3, _b('gint16')), ct='none'), False),
+     ('array0-ptr-utf8-noctype', dict(_arr(0, {'k': 'ptr', 'to': 'utf8'}), ct='none'), False),
+     ('array2-struct-16/8-noctype', dict(_arr(2, _iv('P16')), ct='none'), False),
      ('array2x3-gint16', _arr(2, _arr(3, _b('gint16'))), True), ('array1x1-gint8', _arr(1, _arr(1, _b('gint8'))), True),
      ('array2x0-gint16', _arr(2, _arr(0, _b('gint16'))), False), ('array0x3-gint32', _arr(0, _arr(3, _b('gint32'))), False),
      ('array3x1-struct-16/8', _arr(3, _arr(1, _iv('P16'))), False), ('array2x2x2-gint8', _arr(2, _arr(2, _arr(2, _b('gint8')))), False),
